@@ -166,3 +166,268 @@ Proof.
   intros Hin Hc. unfold ipv4. destruct (dotted_quad s) eqn:E; [|apply andb_false_r].
   apply dotted_quad_alphabet_l in E. rewrite Forall_forall in E. specialize (E _ Hin). congruence.
 Qed.
+
+(* ---------- host names ---------- *)
+
+Lemma pow_class neg items n w :
+  pow (lang (Class neg items)) n w <->
+  length w = n /\ Forall (fun c => class_mem neg items c = true) w.
+Proof.
+  revert w; induction n as [|n IH]; intros w; simpl.
+  - split; [intros ->; split; [reflexivity|constructor]|]. intros [H _]. now destruct w.
+  - split.
+    + intros (a & b & -> & (c & -> & Hc) & Hb). apply IH in Hb as [Hl Hf]. simpl. split; [congruence|].
+      constructor; assumption.
+    + intros [Hl Hf]. destruct w as [|c w]; [discriminate|]. inversion Hf as [|? ? Hc Hw]; subst.
+      exists [c], w. split; [reflexivity|]. split; [exists c; tauto|]. apply IH. split; [simpl in Hl; congruence|assumption].
+Qed.
+
+Lemma alnum_class c : class_mem false [CNamed Alnum] c = is_alnum c.
+Proof. unfold class_mem. rewrite xorb_false_l. simpl. apply orb_false_r. Qed.
+
+Lemma alpha_class c : class_mem false [CNamed Alpha] c = is_alpha c.
+Proof. unfold class_mem. rewrite xorb_false_l. simpl. apply orb_false_r. Qed.
+
+Lemma ldh_class c : class_mem false [CNamed Alnum; CR 45 45] c = is_ldh c.
+Proof.
+  unfold class_mem, is_ldh. rewrite xorb_false_l. simpl. unfold Regex.between. rewrite orb_false_r.
+  f_equal. lia.
+Qed.
+
+Lemma dashes_spec f s :
+  dashes_then_alnum f s = true <->
+  exists w b post, s = w ++ b :: post /\ (length w <= f)%nat /\ Forall (fun c => is_ldh c = true) w /\ is_alnum b = true.
+Proof.
+  split.
+  - revert f; induction s as [|c r IH]; intros f; simpl; [intros H; discriminate H|].
+    destruct (is_alnum c) eqn:Ea.
+    + intros _. exists [], c, r. repeat split; [simpl; lia|constructor|assumption].
+    + destruct (c =? 45) eqn:Ec; [|intros H; discriminate H]. destruct f as [|f]; [intros H; discriminate H|].
+      intros H. destruct (IH _ H) as (w & b & post & -> & Hl & Hf & Hb).
+      exists (c :: w), b, post. repeat split; [simpl; lia| |assumption].
+      constructor; [unfold is_ldh; rewrite Ec; apply orb_true_r|assumption].
+  - intros (w & b & post & -> & Hl & Hf & Hb). revert f Hl; induction w as [|c w IH]; intros f Hl; simpl.
+    + now rewrite Hb.
+    + inversion Hf as [|? ? Hc Hw]; subst. destruct (is_alnum c) eqn:Ea; [reflexivity|].
+      unfold is_ldh in Hc. rewrite Ea in Hc. simpl in Hc. rewrite Hc.
+      destruct f as [|f]; [simpl in Hl; lia|]. apply IH; [assumption|simpl in Hl; lia].
+Qed.
+
+Lemma hostname_lang_iff s :
+  accept_hostname s = true <-> starts_ok s = true \/ ends_alpha s = true.
+Proof.
+  unfold accept_hostname. rewrite accepts_iff_search_l. unfold search_spec, hostname_top. split.
+  - intros (br & [<-|[<-|[]]] & pre & mid & post & -> & Hm & Hb & He);
+      cbn [bol body eol] in Hm, Hb, He; unfold c_alnum, c_alpha, c_alnum_dash in Hm; cbn [lang] in Hm.
+    + left. rewrite (Hb eq_refl). cbn [app].
+      destruct Hm as (x & y & -> & (a & -> & Ha) & w & z & -> & (n & _ & Hn & Hp) & (b & -> & Hbb)).
+      rewrite alnum_class in Ha, Hbb. apply pow_class in Hp as [Hl Hf]. cbn [le_opt] in Hn.
+      cbn [app starts_ok]. rewrite Ha. cbn [andb]. apply dashes_spec. exists w, b, post. rewrite <- app_assoc. cbn [app].
+      split; [reflexivity|]. split; [lia|]. split; [|assumption].
+      eapply Forall_impl; [|exact Hf]. intros c Hc. cbv beta in Hc. now rewrite ldh_class in Hc.
+    + right. rewrite (He eq_refl), app_nil_r. destruct Hm as (b & -> & Hbb). rewrite alpha_class in Hbb.
+      unfold ends_alpha. now rewrite last_last.
+  - intros [H|H].
+    + destruct s as [|a s']; [discriminate H|]. cbn [starts_ok] in H. apply andb_prop in H as [Ha Hd].
+      apply dashes_spec in Hd as (w & b & post & -> & Hl & Hf & Hb).
+      eexists. split; [left; reflexivity|]. exists [], (a :: w ++ [b]), post. cbn [bol body eol app].
+      split; [rewrite <- app_assoc; reflexivity|]. split; [|split; [reflexivity|intros E; discriminate E]].
+      unfold c_alnum, c_alnum_dash. cbn [lang].
+      exists [a], (w ++ [b]). split; [reflexivity|]. split.
+      * exists a. rewrite alnum_class. tauto.
+      * exists w, [b]. split; [reflexivity|]. split.
+        -- exists (length w). split; [lia|]. split; [cbn [le_opt]; lia|]. apply pow_class. split; [reflexivity|].
+           eapply Forall_impl; [|exact Hf]. intros c Hc. cbv beta. now rewrite ldh_class.
+        -- exists b. rewrite alnum_class. tauto.
+    + unfold ends_alpha in H. assert (Hne : s <> []) by (intros ->; discriminate H).
+      eexists. split; [right; left; reflexivity|]. exists (removelast s), [last s 0], []. cbn [bol body eol].
+      split; [rewrite app_nil_r; now apply app_removelast_last|]. split; [|split; [intros E; discriminate E|reflexivity]].
+      unfold c_alpha. cbn [lang]. exists (last s 0). rewrite alpha_class. tauto.
+Qed.
+
+Lemma hostname_char_l s : accept_hostname s = starts_ok s || ends_alpha s.
+Proof.
+  pose proof (hostname_lang_iff s) as H.
+  destruct (accept_hostname s), (starts_ok s), (ends_alpha s); simpl; try reflexivity;
+    (destruct H as [H1 H2]; try (destruct (H1 eq_refl); discriminate); try (now apply H2; auto)).
+Qed.
+
+Lemma join_dots_cons l ls : exists tail, join_dots (l :: ls) = l ++ tail.
+Proof. destruct ls as [|l' ls]; [exists []; simpl; now rewrite app_nil_r|]. eexists. reflexivity. Qed.
+
+Lemma dashes_label r tail f :
+  r <> [] -> Forall (fun c => is_ldh c = true) r -> is_alnum (last r 0) = true -> (length r <= S f)%nat ->
+  dashes_then_alnum f (r ++ tail) = true.
+Proof.
+  revert f; induction r as [|c r IH]; intros f Hne Hf Hlast Hlen; [congruence|].
+  inversion Hf as [|? ? Hc Hr]; subst. simpl. destruct (is_alnum c) eqn:Ea; [reflexivity|].
+  unfold is_ldh in Hc. rewrite Ea in Hc. simpl in Hc. rewrite Hc.
+  destruct r as [|c' r'].
+  - simpl in Hlast. congruence.
+  - destruct f as [|f]; [simpl in Hlen; lia|]. apply IH; try assumption; [discriminate|simpl in *; lia].
+Qed.
+
+Lemma hostname_generated_l l ls :
+  label_ok l = true -> Forall (fun x => label_ok x = true) ls ->
+  (2 <= length l)%nat \/ ends_alpha (join_dots (l :: ls)) = true ->
+  accept_hostname (join_dots (l :: ls)) = true.
+Proof.
+  intros Hl _ [H2|He]; rewrite hostname_char_l; [|rewrite He; apply orb_true_r].
+  destruct (join_dots_cons l ls) as [tail ->].
+  destruct l as [|a r]; [discriminate|]. unfold label_ok in Hl.
+  repeat (apply andb_prop in Hl; destruct Hl as [Hl ?]).
+  destruct r as [|c r]; [simpl in H2; lia|].
+  assert (Ha : is_alnum a = true) by (unfold is_alnum; rewrite Hl; apply orb_true_r).
+  change ((a :: c :: r) ++ tail) with (a :: ((c :: r) ++ tail)). cbn [starts_ok]. rewrite Ha. cbn [andb].
+  rewrite dashes_label; [reflexivity|discriminate| | |].
+  - apply Forall_forall. intros x Hx. rewrite forallb_forall in H1. now apply H1.
+  - assumption.
+  - apply Nat.leb_le in H. simpl in *. lia.
+Qed.
+
+(* ---------- uuid ---------- *)
+
+Lemma uuid_wrong_length_l s :
+  length s <> 36%nat -> length s <> 45%nat -> length s <> 38%nat -> length s <> 32%nat ->
+  accept_uuid s = false.
+Proof.
+  intros H1 H2 H3 H4. unfold accept_uuid.
+  apply Nat.eqb_neq in H1, H2, H3, H4. now rewrite H1, H2, H3, H4.
+Qed.
+
+Lemma nth_set_at_eq i b s : (i < length s)%nat -> nth i (set_at i b s) 0 = b.
+Proof. revert i; induction s as [|a s IH]; intros [|i]; simpl; try lia; auto. intros H. apply IH. lia. Qed.
+
+Lemma forallb_false_of {A} (f : A -> bool) l x : In x l -> f x = false -> forallb f l = false.
+Proof.
+  intros Hin Hx. destruct (forallb f l) eqn:E; [|reflexivity].
+  rewrite forallb_forall in E. rewrite (E _ Hin) in Hx. discriminate.
+Qed.
+
+Lemma hex_pos_lt i : In i uuid_hex_pos -> (i < 36)%nat.
+Proof. unfold uuid_hex_pos. simpl. intros H. repeat (destruct H as [<-|H]; [lia|]). destruct H. Qed.
+
+Lemma dash_pos_lt i : In i uuid_dash_pos -> (i < 36)%nat.
+Proof. unfold uuid_dash_pos. simpl. intros H. repeat (destruct H as [<-|H]; [lia|]). destruct H. Qed.
+
+Lemma uuid_nonhex_l s i b :
+  length s = 36%nat -> In i uuid_hex_pos -> is_xdigit b = false -> accept_uuid (set_at i b s) = false.
+Proof.
+  intros Hl Hi Hb. unfold accept_uuid. rewrite set_at_length, Hl. cbn [Nat.eqb].
+  unfold uuid36_body. rewrite (forallb_false_of _ _ i Hi); [now rewrite andb_false_r|].
+  unfold byte_at. rewrite nth_set_at_eq; [assumption|]. rewrite Hl. now apply hex_pos_lt.
+Qed.
+
+Lemma uuid_bad_dash_l s i b :
+  length s = 36%nat -> In i uuid_dash_pos -> b <> 45 -> accept_uuid (set_at i b s) = false.
+Proof.
+  intros Hl Hi Hb. unfold accept_uuid. rewrite set_at_length, Hl. cbn [Nat.eqb].
+  unfold uuid36_body. rewrite (forallb_false_of _ _ i Hi); [reflexivity|].
+  unfold byte_at. rewrite nth_set_at_eq; [now apply N.eqb_neq|]. rewrite Hl. now apply dash_pos_lt.
+Qed.
+
+Lemma uuid36_body_app u x : length u = 36%nat -> uuid36_body (u ++ x) = uuid36_body u.
+Proof.
+  intros Hl. unfold uuid36_body, byte_at.
+  assert (E : forall i, (i < 36)%nat -> nth i (u ++ x) 0 = nth i u 0) by (intros i Hi; apply app_nth1; lia).
+  assert (F1 : forall f : N -> bool, forallb (fun i => f (nth i (u ++ x) 0)) uuid_dash_pos =
+                                     forallb (fun i => f (nth i u 0)) uuid_dash_pos).
+  { intros f. apply eq_true_iff_eq. rewrite !forallb_forall.
+    split; intros H i Hi; specialize (H i Hi); [rewrite <- E|rewrite E]; auto using dash_pos_lt. }
+  assert (F2 : forall f : N -> bool, forallb (fun i => f (nth i (u ++ x) 0)) uuid_hex_pos =
+                                     forallb (fun i => f (nth i u 0)) uuid_hex_pos).
+  { intros f. apply eq_true_iff_eq. rewrite !forallb_forall.
+    split; intros H i Hi; specialize (H i Hi); [rewrite <- E|rewrite E]; auto using hex_pos_lt. }
+  rewrite (F1 (fun c => c =? 45)), (F2 is_xdigit), E by lia. reflexivity.
+Qed.
+
+(* the 38-byte form: whatever stands in the place of the braces is accepted *)
+Lemma uuid_braces_unchecked_l u b1 b2 :
+  length u = 36%nat -> accept_uuid (b1 :: u ++ [b2]) = accept_uuid u.
+Proof.
+  intros Hl. unfold accept_uuid. cbn [length]. rewrite app_length, Hl. cbn [length Nat.add Nat.eqb skipn].
+  apply uuid36_body_app, Hl.
+Qed.
+
+(* every string of the generator's domain is accepted, in each of the four forms *)
+Definition uuid36_shape (s : word) : Prop :=
+  length s = 36%nat /\ (forall i, In i uuid_dash_pos -> byte_at s i = 45) /\
+  (forall i, In i uuid_hex_pos -> is_xdigit (byte_at s i) = true) /\ variant_ok (byte_at s 19) = true.
+
+Lemma uuid36_shape_body s : uuid36_shape s -> uuid36_body s = true.
+Proof.
+  intros (Hl & Hd & Hh & Hv). unfold uuid36_body. rewrite Hv, andb_true_r. apply andb_true_intro. split.
+  - apply forallb_forall. intros i Hi. apply N.eqb_eq. now apply Hd.
+  - apply forallb_forall. intros i Hi. now apply Hh.
+Qed.
+
+Lemma uuid_generated_l s :
+  uuid36_shape s ->
+  accept_uuid s = true /\ accept_uuid (123 :: s ++ [125]) = true /\
+  forall p, length p = 9%nat -> map to_lower p = urn_prefix -> accept_uuid (p ++ s) = true.
+Proof.
+  intros Hs. pose proof (uuid36_shape_body _ Hs) as Hb. destruct Hs as (Hl & _).
+  assert (H0 : accept_uuid s = true) by (unfold accept_uuid; rewrite Hl; exact Hb).
+  split; [exact H0|]. split; [rewrite uuid_braces_unchecked_l by exact Hl; exact H0|].
+  intros p Hp Hu. unfold accept_uuid. rewrite app_length, Hp, Hl. cbn [Nat.add Nat.eqb].
+  rewrite <- Hp at 1. rewrite firstn_app, firstn_all, Nat.sub_diag. cbn [firstn]. rewrite app_nil_r, Hu.
+  rewrite <- Hp. rewrite skipn_app, skipn_all, Nat.sub_diag. cbn [skipn app].
+  rewrite Hb. unfold word_eqb. destruct (list_eq_dec N.eq_dec urn_prefix urn_prefix); [reflexivity|congruence].
+Qed.
+
+Lemma uuid_raw_generated_l h :
+  length h = 32%nat -> Forall (fun c => is_xdigit c = true) h -> variant_ok (byte_at h 16) = true ->
+  accept_uuid h = true.
+Proof.
+  intros Hl Hf Hv. unfold accept_uuid. rewrite Hl. cbn [Nat.eqb]. rewrite Hv, andb_true_r.
+  apply forallb_forall. now apply Forall_forall.
+Qed.
+
+(* ---------- witnesses of the recorded findings ---------- *)
+
+(* exa!mple.com *)
+Lemma hostname_corruption_refuted_l :
+  exists l1 l2 i b, label_ok l1 = true /\ label_ok l2 = true /\ is_ldh b = false /\ b <> 46 /\
+    (i < length (join_dots [l1; l2]))%nat /\
+    accept_hostname (set_at i b (join_dots [l1; l2])) = true.
+Proof.
+  exists [101;120;97;109;112;108;101], [99;111;109], 3%nat, 33.
+  split; [vm_compute; reflexivity|]. split; [vm_compute; reflexivity|]. split; [vm_compute; reflexivity|].
+  split; [discriminate|]. split; [simpl; lia|vm_compute; reflexivity].
+Qed.
+
+(* a.b9 *)
+Lemma hostname_generated_refuted_l :
+  exists l1 l2, label_ok l1 = true /\ label_ok l2 = true /\ accept_hostname (join_dots [l1; l2]) = false.
+Proof. exists [97], [98; 57]. repeat split; vm_compute; reflexivity. Qed.
+
+(* X6ba7b810-9dad-11d1-80b4-00c04fd430c8Y *)
+Lemma uuid_brace_refuted_l :
+  exists u b1 b2, length u = 36%nat /\ accept_uuid u = true /\ b1 <> 123 /\ b2 <> 125 /\
+    accept_uuid (b1 :: u ++ [b2]) = true.
+Proof.
+  exists [54;98;97;55;98;56;49;48;45;57;100;97;100;45;49;49;100;49;45;56;48;98;52;45;48;48;99;48;52;102;100;52;51;48;99;56], 88, 89.
+  split; [reflexivity|]. split; [vm_compute; reflexivity|]. split; [discriminate|]. split; [discriminate|].
+  vm_compute; reflexivity.
+Qed.
+
+Lemma uuid_brace_form_inner_l u i b b1 b2 :
+  length u = 36%nat ->
+  (In i uuid_hex_pos /\ is_xdigit b = false) \/ (In i uuid_dash_pos /\ b <> 45) ->
+  accept_uuid (b1 :: set_at i b u ++ [b2]) = false.
+Proof.
+  intros Hl H. rewrite uuid_braces_unchecked_l by (rewrite set_at_length; exact Hl).
+  destruct H as [[Hi Hb]|[Hi Hb]]; [now apply uuid_nonhex_l|now apply uuid_bad_dash_l].
+Qed.
+
+Lemma hostname_partial_l s : starts_ok s = false -> ends_alpha s = false -> accept_hostname s = false.
+Proof. intros H1 H2. rewrite (hostname_char_l s), H1, H2. reflexivity. Qed.
+
+Lemma uuid_partial_l u i b :
+  length u = 36%nat ->
+  (In i uuid_hex_pos /\ is_xdigit b = false) \/ (In i uuid_dash_pos /\ b <> 45) ->
+  accept_uuid (set_at i b u) = false /\ forall b1 b2, accept_uuid (b1 :: set_at i b u ++ [b2]) = false.
+Proof.
+  intros Hl H. split; [|intros b1 b2; now apply uuid_brace_form_inner_l].
+  destruct H as [[Hi Hb]|[Hi Hb]]; [now apply uuid_nonhex_l|now apply uuid_bad_dash_l].
+Qed.
